@@ -39,6 +39,16 @@ def generate(rng, tier):
             for seq in itertools.product(alphabet, repeat=n):
                 cases.append({"file": init[0], "writable": init[1], "rng": fixed_draws[:n + 1],
                               "ops": [("new",), ("new",)] + list(seq), "kind": "matrix"})
+    # sessions separated by an external change of the file, same and different objects (every initial state)
+    swaps = [KEY_B, KEY_A, b"12345", None]
+    for init in INITIALS:
+        for swap in swaps:
+            for second in (0, 1):
+                for cipher in ("enc", "dec"):
+                    ops = [("new",), ("new",), ("enter", 0), (cipher, 0, "xor", b"\x00" * 40), ("exit", 0), ("ext", swap, True),
+                           ("enter", second), (cipher, second, "xor", b"\x00" * 40), ("enter", second), (cipher, second, "xor", b"abc"),
+                           ("exit", second), ("exit", second), (cipher, second, "xor", b"abc")]
+                    cases.append({"file": init[0], "writable": init[1], "rng": fixed_draws[:4], "ops": ops, "kind": "swap"})
     nrand = 1200 if tier == "quick" else 20000
     for _ in range(nrand):
         init = rng.choice(INITIALS)
@@ -47,7 +57,7 @@ def generate(rng, tier):
         count = 0
         for _ in range(rng.randint(3, 14 if tier == "quick" else 30)):
             r = rng.random()
-            if count == 0 or r < 0.08:
+            if count == 0 or r < 0.06:
                 ops.append(("new",))
                 count += 1
                 continue
@@ -183,46 +193,84 @@ def _xor(key, data):
 
 
 def oracle(c, obs):
-    """C07 evaluated directly on the implementation's observations"""
+    """C07 evaluated directly on the implementation's observations, with bookkeeping of its own:
+    how deep each object's context is (successful enters minus exits), which key each open session must use
+    (the content of the file when the outermost context was entered, or the draw it was created with) and what
+    the file must hold.  Nothing here reads the implementation's reference count."""
     bad = []
-    ops = c["ops"]
-    has_ext = any(op[0] == "ext" for op in ops)
-    init = c["file"]
-    nested = True
-    prev_refs = []
-    first_draw = c["rng"][0] if c["rng"] else None
-    for n, (op, (out, (content, objs))) in enumerate(zip(ops, obs)):
-        if op[0] == "exit" and op[1] < len(prev_refs) and prev_refs[op[1]] <= 0:
-            nested = False
-        if nested:
-            for (key, ref) in objs:
-                if ref == 0 and key:
-                    bad.append("step %d: closed KeyFile object still holds key material" % n)
-                if ref < 0:
-                    bad.append("step %d: negative refcount in a well-nested history" % n)
-        if op[0] in ("enc", "dec") and isinstance(out, tuple) and out[0] != "err" or (op[0] in ("enc", "dec") and out in ("aes",)):
-            if op[1] < len(prev_refs) and prev_refs[op[1]] <= 0 and nested:
-                bad.append("step %d: cipher call succeeded outside an open key context" % n)
-        if not has_ext:
-            if init is not None and len(init) == 32:
-                if content != init:
-                    bad.append("step %d: valid key file was modified" % n)
-                if isinstance(out, tuple) and out[0] == "xor" and out[1] != _xor(init, op[3]):
-                    bad.append("step %d: cipher result was not computed with the file's key" % n)
-            elif init is not None:
-                if content != init:
-                    bad.append("step %d: malformed key file was modified" % n)
-                if op[0] == "enter" and out != ("err", "encryption"):
-                    bad.append("step %d: opening a malformed key file gave %r" % (n, out))
-                if op[0] in ("enc", "dec") and not (isinstance(out, tuple) and out[0] == "err"):
+    file_content, writable = c["file"], c["writable"]
+    draws = list(c["rng"])
+    depth, skey = [], []
+    tainted = False          # an external change while a context was open / an exit without enter: outside the quantifier
+    for n, (op, (out, (content, objs))) in enumerate(zip(c["ops"], obs)):
+        is_err = isinstance(out, tuple) and out[0] == "err"
+        if op[0] == "new":
+            depth.append(0)
+            skey.append(None)
+        elif op[0] == "ext":
+            if any(d > 0 for d in depth):
+                tainted = True
+            file_content, writable = op[1], op[2]
+        elif out == "harness-error" or op[1] >= len(depth):
+            pass
+        elif op[0] == "enter":
+            i = op[1]
+            if depth[i] > 0:
+                if out != "ok" and not tainted:
+                    bad.append("step %d: nested enter failed: %r" % (n, out))
+                else:
+                    depth[i] += 1
+            elif not tainted:
+                if file_content is not None and len(file_content) == 32:
+                    if out != "ok":
+                        bad.append("step %d: opening a valid key file gave %r" % (n, out))
+                    else:
+                        depth[i], skey[i] = 1, file_content
+                elif file_content is not None:
+                    if out != ("err", "encryption"):
+                        bad.append("step %d: opening a key file of %d bytes gave %r instead of an encryption error" % (n, len(file_content), out))
+                        if out == "ok":
+                            depth[i], skey[i] = 1, None
+                else:
+                    draw = draws.pop(0) if draws else None
+                    if writable:
+                        if out != "ok":
+                            bad.append("step %d: creating a missing key file gave %r" % (n, out))
+                        else:
+                            if content is None or len(content) != 32 or (draw is not None and content != draw):
+                                bad.append("step %d: created key file does not hold the 32 fresh random bytes" % n)
+                            file_content = content
+                            depth[i], skey[i] = 1, content
+                    elif not is_err:
+                        bad.append("step %d: opening a missing key file in an unwritable directory gave %r" % (n, out))
+            else:
+                if out == "ok":
+                    depth[i] += 1
+        elif op[0] == "exit":
+            i = op[1]
+            if depth[i] <= 0:
+                tainted = True
+            else:
+                depth[i] -= 1
+                if depth[i] == 0:
+                    skey[i] = None
+        elif op[0] in ("enc", "dec"):
+            i = op[1]
+            if not tainted:
+                if depth[i] == 0 and not is_err:
+                    bad.append("step %d: cipher call succeeded outside an open key context" % n)
+                if depth[i] > 0 and isinstance(out, tuple) and out[0] == "xor" and skey[i] is not None and out[1] != _xor(skey[i], op[3]):
+                    bad.append("step %d: cipher result was not computed with the key of the file this session opened" % n)
+                if depth[i] > 0 and skey[i] is None and not is_err:
                     bad.append("step %d: cipher call succeeded with a malformed key file" % n)
-            elif c["writable"]:
-                if content is not None and content != first_draw:
-                    bad.append("step %d: created key file does not hold the first random draw" % n)
-                if isinstance(out, tuple) and out[0] == "xor" and out[1] != _xor(first_draw, op[3]):
-                    bad.append("step %d: cipher result was not computed with the created key" % n)
-        prev_refs = [r for (_, r) in objs]
-    return bad
+        if not tainted:
+            if content != file_content:
+                bad.append("step %d: the key file was modified (or removed) by the library" % n)
+                file_content = content
+            for i, (key, ref) in enumerate(objs):
+                if i < len(depth) and depth[i] == 0 and key:
+                    bad.append("step %d: KeyFile object %d holds key material although no context is open" % (n, i))
+    return bad[:6]
 
 
 def tags(c, obs):
